@@ -316,6 +316,21 @@ async fn emit_output(
         .await;
 }
 
+/// Verification-only: the real `emit_output` once per chunk, as the PTY task's loop calls it for
+/// every read of the reader thread (chosen chunkings; needs no PTY).
+#[cfg(rip_verif)]
+pub(super) async fn verif_emit_output_chunks(
+    task_id: &str,
+    emitter: &TaskEmitter,
+    writer: &mut TaskLogWriter,
+    max_bytes: usize,
+    chunks: &[Vec<u8>],
+) {
+    for chunk in chunks {
+        emit_output(task_id, emitter, writer, max_bytes, chunk).await;
+    }
+}
+
 async fn handle_control(
     task_id: &str,
     emitter: &TaskEmitter,
